@@ -186,12 +186,14 @@ N_t01 == <<126, 48, 49>>
 N_mtn == <<109, 126, 110>>
 N_sp == <<32>>
 N_hash == <<35>>
-Names == <<N_empty, N_a, N_0, N_01, N_1, N_tilde, N_slash, N_a_b, N_t1, N_t0, N_pct, N_dash, N_t01, N_mtn, N_sp, N_hash>>
+N_plus == <<97, 43, 98>>
+N_aspb == <<97, 32, 98>>
+Names == <<N_empty, N_a, N_0, N_01, N_1, N_tilde, N_slash, N_a_b, N_t1, N_t0, N_pct, N_dash, N_t01, N_mtn, N_sp, N_hash, N_plus, N_aspb>>
 
 Arr3 == Arr(<<Leaf, Leaf, Leaf>>)
 Inner == Map(<<N_empty, N_0, N_01, N_slash, N_t1>>, <<Leaf, Leaf, Arr3, Leaf, Leaf>>)
 \* document 1: every adversarial name at the root, nested maps and arrays below
-Doc1 == Map(Names, <<Inner, Arr3, Leaf, Leaf, Arr(<<Inner, Leaf>>), Leaf, Leaf, Leaf, Leaf, Leaf, Leaf, Leaf, Leaf, Leaf, Leaf, Leaf>>)
+Doc1 == Map(Names, <<Inner, Arr3, Leaf, Leaf, Arr(<<Inner, Leaf>>), Leaf, Leaf, Leaf, Leaf, Leaf, Leaf, Leaf, Leaf, Leaf, Leaf, Leaf, Leaf, Leaf>>)
 \* document 2: an array at the root (numeric tokens meet a sequence first)
 Doc2 == Arr(<<Inner, Arr(<<Leaf, Arr3>>), Leaf, Leaf, Leaf, Leaf, Leaf, Leaf, Leaf, Leaf, Leaf, Map(<<N_a>>, <<Leaf>>)>>)
 \* document 3: a scalar root
@@ -204,7 +206,7 @@ Esc(t) == \* RFC escaping of a member name
   LET F[i \in 0..Len(t)] == IF i = 0 THEN <<>> ELSE F[i-1] \o (IF t[i] = TILDE THEN <<126, 48>> ELSE IF t[i] = SLASH THEN <<126, 49>> ELSE <<t[i]>>) IN F[Len(t)]
 IndexToks == {<<48>>, <<49>>, <<50>>, <<51>>, <<48, 49>>, <<48, 48>>, <<49, 49>>, <<45>>, <<43, 49>>, <<49, 101, 48>>, <<48, 120, 49>>}
 BadToks == {<<126>>, <<126, 50>>, <<97, 126>>, <<126, 126, 49>>}
-RawToks == {Esc(Names[i]) : i \in 1..Len(Names)} \cup {Names[i] : i \in {2, 3, 4, 5, 11, 12, 15, 16}} \cup IndexToks \cup BadToks
+RawToks == {Esc(Names[i]) : i \in 1..Len(Names)} \cup {Names[i] : i \in {2, 3, 4, 5, 11, 12, 15, 16, 17, 18}} \cup IndexToks \cup BadToks
 
 RECURSIVE SeqsUpTo(_, _)
 SeqsUpTo(S, n) ==
@@ -218,7 +220,8 @@ Join(toks) == IF toks = <<>> THEN <<>> ELSE <<SLASH>> \o toks[1] \o Join(Tail(to
 \* fragment spelling: '#' + percent-encoding of everything outside a small safe set
 HexDigit(n) == IF n < 10 THEN 48 + n ELSE 55 + n
 PctEnc(c) == <<PCT, HexDigit(c \div 16), HexDigit(c % 16)>>
-FragSafe(c) == (c >= 97 /\ c <= 122) \/ IsDigit(c) \/ c \in {SLASH, TILDE, 45}
+\* literal "+" is legal in a fragment and is NOT a space there
+FragSafe(c) == (c >= 97 /\ c <= 122) \/ IsDigit(c) \/ c \in {SLASH, TILDE, 45, 43}
 Frag(s) == LET F[i \in 0..Len(s)] == IF i = 0 THEN <<HASH>> ELSE F[i-1] \o (IF FragSafe(s[i]) THEN <<s[i]>> ELSE PctEnc(s[i])) IN F[Len(s)]
 \* over-encoded fragment spelling: every byte escaped, lower-case hex for letters
 LowHex(n) == IF n < 10 THEN 48 + n ELSE 87 + n
